@@ -1,0 +1,10 @@
+//go:build verif
+
+// Machine-checked contracts for package qr (comment-only; read by /verif/govc).
+package qr
+
+// mask selection only needs a penalty that is not the sentinel ^uint(0): any mask gives a valid symbol
+//@ func (*qrcode).calcPenalty
+//@   abstract
+//@   requires qr != nil
+//@   ensures result < 18446744073709551615
